@@ -547,4 +547,4 @@ def _obligations():
 
 
 def obligations():
-    return _obligations() + [labels_obligation("C13"), selectors_obligation("C13"), mutations_obligation("C13"), effects_obligation("C13"), plumbing_obligation("C13"), overrides_obligation("C13"), options_obligation("C13"), handlers_obligation("C13")]
+    return _obligations() + [labels_obligation("C13"), selectors_obligation("C13"), mutations_obligation("C13"), loopstate_obligation("C13"), effects_obligation("C13"), plumbing_obligation("C13"), overrides_obligation("C13"), options_obligation("C13"), handlers_obligation("C13")]
